@@ -72,7 +72,7 @@ Qed.
 Theorem globals_released_gen sc : forall w tr, Gen sc w tr -> w_cur w = None /\ w_buf w = [].
 Proof.
   apply (gen_inv sc (fun w _ => w_cur w = None /\ w_buf w = [])); [split; reflexivity|].
-  intros w tr e w' _ [Hc Hb] Hs. destruct Hs as [stage m w Hfresh|w|w t ev f Hf].
+  intros w tr e w' _ [Hc Hb] Hs. destruct Hs as [stage m w Hfresh Hactive|w|w t ev f Hf].
   - unfold start_rec. cbn [fst]. apply around_glob.
   - auto.
   - unfold loop_rec. cbn [fst]. apply process_glob; assumption.
